@@ -32,7 +32,7 @@ META = {
     "max_jobs": 16,
 }
 LOG_LINE = re.compile(r"^\d{4}-\d{2}-\d{2} [\d:]+\s+\(\d+\) .*(runner aborted|runner terminated|aborted)", re.M)
-SERVICE_TAGS = {"VSvcAgain": "asyncio", "VSvcTrioDeco": "trio", "VSvcCtrl": "trio", "VSvcDeco": "asyncio", "VSvcThread": "threading", "VSvcPool": "trio", "VSvcEmpty": "trio", "VSvcWaiter": "asyncio"}
+SERVICE_TAGS = {"VSvcStubborn": "asyncio", "VSvcAgain": "asyncio", "VSvcTrioDeco": "trio", "VSvcCtrl": "trio", "VSvcDeco": "asyncio", "VSvcThread": "threading", "VSvcPool": "trio", "VSvcEmpty": "trio", "VSvcWaiter": "asyncio"}
 
 
 def plan(tier, seed):
@@ -52,7 +52,7 @@ def gen_pipeline(rnd):
         elif i == 0:
             cls = rnd.choice(["VSvcCtrl", "VSvcCtrl", "VSvcDeco", "VSvcThread", "VDeco", "LinearController"])
         else:
-            cls = rnd.choice(["VSvcDeco", "VSvcThread", "VDeco", "Standardiser", "Logger", "VSvcDeco", "VSvcWaiter", "VSvcTrioDeco", "VSvcAgain"])
+            cls = rnd.choice(["VSvcDeco", "VSvcThread", "VDeco", "Standardiser", "Logger", "VSvcDeco", "VSvcWaiter", "VSvcTrioDeco", "VSvcAgain", "VSvcStubborn"])
         kwargs = {}
         label = None
         if cls in SERVICE_TAGS:
@@ -76,7 +76,7 @@ def yaml_text(rnd, elems, logging, extra):
     lines.append("pipeline:")
     for cls, label, kwargs in elems:
         items = ", ".join("%s: %s" % (k, v) for k, v in kwargs.items())
-        if cls in ("VSvcCtrl", "VSvcDeco", "VSvcAgain", "VSvcTrioDeco", "VSvcThread", "VSvcPool", "VSvcEmpty", "VSvcWaiter", "VDeco", "VPool") and rnd.random() < 0.35:
+        if cls in ("VSvcCtrl", "VSvcDeco", "VSvcAgain", "VSvcStubborn", "VSvcTrioDeco", "VSvcThread", "VSvcPool", "VSvcEmpty", "VSvcWaiter", "VDeco", "VPool") and rnd.random() < 0.35:
             # the class named directly, through a namespace class, or by an alternative constructor
             name = rnd.choice(["vplug.%s", "vplug.%s", "vplug.Site.%s", "vplug.%s.build"]) % cls
             lines.append("  - {__type__: %s%s}" % (name, (", " + items) if items else ""))
@@ -90,7 +90,7 @@ def yaml_text(rnd, elems, logging, extra):
 
 
 def python_text(rnd, elems):
-    imports = ["from vplug import VSvcCtrl, VSvcDeco, VSvcAgain, VSvcTrioDeco, VSvcThread, VSvcPool, VSvcEmpty, VSvcWaiter, VDeco, VPool",
+    imports = ["from vplug import VSvcCtrl, VSvcDeco, VSvcAgain, VSvcStubborn, VSvcTrioDeco, VSvcThread, VSvcPool, VSvcEmpty, VSvcWaiter, VDeco, VPool",
                "from cobald.controller.linear import LinearController", "from cobald.decorator.standardiser import Standardiser",
                "from cobald.decorator.logger import Logger"]
     parts = []
@@ -150,6 +150,9 @@ def gen_case(rnd, spec):
         kind, fmt = "invalid", "yaml"
         if forced == "broken_element":
             elems.insert(0, ["VSvcDeco", "svcB", {"label": "svcB", "period": 0.05}])
+    if spec["case_index"] == 2 and spec["shard"] in (11, 12):
+        forced, kind = "stubborn", "valid"
+        elems.insert(0, ["VSvcStubborn", "svcS", {"label": "svcS", "period": rnd.choice([0.02, 0.05])}])
     slow = spec["case_index"] == 0 and spec["shard"] in (0, 1)  # the recorded finding, exercised on every run
     if slow:
         kind = "valid"
@@ -303,6 +306,8 @@ def execute(case, result):
             if flavour[lb] != "threading" and not run.of("cancelled", lb):
                 bad("service %s (%s) was not cancelled on SIGINT" % (lb, flavour[lb]))
             result.count("services_checked_%s" % flavour[lb])
+            if any(e[0] == "VSvcStubborn" and e[1] == lb for e in case["elems"]):
+                result.count("services_that_absorb_one_cancellation_checked")
             if any(e[0] == "VSvcAgain" and e[1] == lb for e in case["elems"]):
                 result.count("services_of_a_class_decorated_twice_checked")
             if any(e[0] == "VSvcEmpty" and e[1] == lb for e in case["elems"]):
@@ -347,7 +352,7 @@ def finish(total, tier):
     need = ["daemons_valid", "daemons_invalid", "daemons_failing", "configs_yaml", "configs_python", "services_checked_trio",
             "services_checked_asyncio", "services_checked_threading", "failing_services_after_start", "valid_with_logging_section", "falsy_services_checked", "private_waiter_services_checked", "services_in_large_injected_configs",
             "failing_services_with_base_exception_threading", "defect_unknown_extension_with_byte_compiled_config",
-            "defect_broken_element", "defect_pipeline_not_a_list", "python_configs_named_like_a_module_they_import", "python_configs_defining_a_dataclass", "services_of_a_class_decorated_twice_checked", "large_configs_of_mostly_trio_services"]
+            "defect_broken_element", "defect_pipeline_not_a_list", "python_configs_named_like_a_module_they_import", "python_configs_defining_a_dataclass", "services_of_a_class_decorated_twice_checked", "services_that_absorb_one_cancellation_checked", "large_configs_of_mostly_trio_services"]
     for name in need:
         if not total.counters.get(name) and not total.violations:
             total.inconc("monitor never observed: " + name)
